@@ -25,7 +25,7 @@ def run(tier, seed):
     bin_ = core.build_lalrpop()
     apidriver.build()
     rng = chk.rng("corpus")
-    ngen = {"quick": 50, "thorough": 600}[tier]
+    ngen = {"quick": 70, "thorough": 600}[tier]
     nproc = {"quick": 8, "thorough": 16}[tier]
     items = corpus.generated(rng, ngen) + [x for x in corpus.repo_files(12000)]
     if tier == "quick":
